@@ -116,3 +116,39 @@ Theorem stabilize_ok_clears f a lx c st v lx' st' :
   run f a lx c st = (ROk v lx', st') -> f <> 0 ->
   run (S f) (GStabilize a) lx c st = (ROk v (set_rec lx' None), st').
 Proof. intros H Hf. cbn [run]. rewrite H. destruct f; [contradiction|reflexivity]. Qed.
+
+(** every success of the retry loop, on whichever attempt, returns a lexer without recover
+    state: the clearing is on the loop's Ok arm, not on the first call *)
+Lemma stab_loop_ok_stable runf n : forall att a c lx res v lx' st',
+  stab_loop runf n att a c lx res = (ROk v lx', st') -> c_rec lx' = None.
+Proof.
+  induction n as [|n IH]; intros att a c lx res v lx' st' H; cbn [stab_loop] in H; [discriminate|].
+  destruct res as [[v0 l0|e| |] st0].
+  - injection H as _ Hl _. subst lx'. reflexivity.
+  - destruct (c_rec lx) as [r|]; [|discriminate].
+    destruct (advance_to_recover lx st0) as [[[[|] lx1]| |] st1]; try discriminate.
+    destruct ((0 <? att) && pos_eqb (c_cursor_pos lx1) (c_cursor_pos lx)); [discriminate|].
+    exact (IH _ _ _ _ _ _ _ _ H).
+  - discriminate.
+  - discriminate.
+Qed.
+
+Theorem stabilize_success_stable f a lx c st v lx' st' :
+  run f (GStabilize a) lx c st = (ROk v lx', st') -> c_rec lx' = None.
+Proof.
+  destruct f as [|f]; cbn [run]; [discriminate|]. apply stab_loop_ok_stable.
+Qed.
+
+(** the retried success: the stabilised parser fails, the recovery is resumed at [lx1], and the
+    parser (run unrecoverably) succeeds there: stabilize succeeds with a stable lexer *)
+Theorem stabilize_retry_ok_clears f a lx c st e st1 r lx1 st2 v lx' st' :
+  run (S (S f)) a lx c st = (RErr e, st1) -> c_rec lx = Some r ->
+  advance_to_recover lx st1 = (Ok (true, lx1), st2) ->
+  run (S (S f)) a lx1 (ctx_unrec c) st2 = (ROk v lx', st') ->
+  run (S (S (S f))) (GStabilize a) lx c st = (ROk v (set_rec lx' None), st').
+Proof.
+  intros H Hr Ha H2.
+  change (run (S (S (S f))) (GStabilize a) lx c st)
+    with (stab_loop (run (S (S f))) (S (S f)) 0 a c lx (run (S (S f)) a lx c st)).
+  rewrite H. cbn [stab_loop]. rewrite Hr, Ha. cbn [Nat.ltb Nat.leb andb]. rewrite H2. reflexivity.
+Qed.
